@@ -562,12 +562,14 @@ func gepInstType(elemType, src types.Type, indices []value.Value) types.Type {
 			// Check if index is of vector type.
 			if indexType, ok := index.Type().(*types.VectorType); ok {
 				idx.VectorLen = indexType.Len
+				idx.Scalable = indexType.Scalable
 			}
 		default:
 			idx = gep.Index{HasVal: false}
 			// Check if index is of vector type.
 			if indexType, ok := index.Type().(*types.VectorType); ok {
 				idx.VectorLen = indexType.Len
+				idx.Scalable = indexType.Scalable
 			}
 		}
 		idxs = append(idxs, idx)
